@@ -55,8 +55,21 @@ const c18CallBound = 20 * time.Second
 type c18Env struct {
 	w      *kit.World
 	srv    *kit.Server
+	px     *kit.Proxy // forwards everything unless told to answer a method with an error
 	c      client.Client
 	cookie client.MonitorCookie
+}
+
+// monitorThroughRefusingServer: a Monitor call for T1 while the server side answers the
+// given methods with errors ("unknown method" is what a server lacking the method says,
+// and makes the client fall back to the next older monitor method).
+func monitorThroughRefusingServer(e *c18Env, errs map[string]string) error {
+	e.px.SetMethodErrors(errs)
+	defer e.px.SetMethodErrors(nil)
+	ctx, cancel := e.ctx()
+	defer cancel()
+	_, err := e.c.Monitor(ctx, e.c.NewMonitor(client.WithTable(e.w.NewModel("T1"))))
+	return err
 }
 
 func (e *c18Env) ctx() (context.Context, context.CancelFunc) {
@@ -112,6 +125,26 @@ var c18Failing = []struct {
 		ctx, cancel := e.ctx()
 		defer cancel()
 		_, err := e.c.Monitor(ctx, e.c.NewMonitor(client.WithTable(e.w.NewModel("T1"))))
+		return err
+	}},
+	{"monitor:server-error", func(e *c18Env) error {
+		return monitorThroughRefusingServer(e, map[string]string{"monitor_cond_since": "boom"})
+	}},
+	{"monitor:fallback-to-monitor_cond-fails", func(e *c18Env) error {
+		return monitorThroughRefusingServer(e, map[string]string{"monitor_cond_since": "unknown method", "monitor_cond": "boom"})
+	}},
+	{"monitor:fallback-to-monitor-fails", func(e *c18Env) error {
+		return monitorThroughRefusingServer(e, map[string]string{"monitor_cond_since": "unknown method", "monitor_cond": "unknown method", "monitor": "boom"})
+	}},
+	{"monitor:no-method-supported", func(e *c18Env) error {
+		return monitorThroughRefusingServer(e, map[string]string{"monitor_cond_since": "unknown method", "monitor_cond": "unknown method", "monitor": "unknown method"})
+	}},
+	{"transact:rpc-error", func(e *c18Env) error {
+		e.px.SetMethodErrors(map[string]string{"transact": "boom"})
+		defer e.px.SetMethodErrors(nil)
+		ctx, cancel := e.ctx()
+		defer cancel()
+		_, err := e.c.Transact(ctx, ovsdb.Operation{Op: "select", Table: "T0", Where: []ovsdb.Condition{}})
 		return err
 	}},
 	{"transact:validation", func(e *c18Env) error {
@@ -257,6 +290,21 @@ var c18FollowUps = []struct {
 		_ = e.c.Get(ctx, e.w.ModelFromRow("T0", kit.MkUUID(1), kit.Row{}))
 		return nil
 	}},
+	{"get:unbounded-context", func(e *c18Env) error {
+		// cache reads wait for the cache to be consistent or for their context: on an idle
+		// connected client they must return without the help of a deadline
+		if !e.c.Connected() {
+			return nil
+		}
+		_ = e.c.Get(context.Background(), e.w.ModelFromRow("T0", kit.MkUUID(1), kit.Row{}))
+		return nil
+	}},
+	{"list:unbounded-context", func(e *c18Env) error {
+		if !e.c.Connected() {
+			return nil
+		}
+		return e.c.List(context.Background(), reflectNewSlicePtr(e.w, "T0"))
+	}},
 	{"echo", func(e *c18Env) error {
 		if !e.c.Connected() {
 			return nil
@@ -317,7 +365,11 @@ func newC18Env(tb testing.TB, w *kit.World, opts ...client.Option) *c18Env {
 	if err != nil {
 		tb.Fatalf("server: %v", err)
 	}
-	c, err := kit.NewClient(w, srv.Endpoint(), opts...)
+	px, err := kit.StartProxy(srv.Sock)
+	if err != nil {
+		tb.Fatalf("proxy: %v", err)
+	}
+	c, err := kit.NewClient(w, px.Endpoint(), opts...)
 	if err != nil {
 		tb.Fatalf("client: %v", err)
 	}
@@ -329,7 +381,7 @@ func newC18Env(tb testing.TB, w *kit.World, opts ...client.Option) *c18Env {
 	if _, err := kit.TransactOps(ctx, w, c, []kit.Op{{Op: "insert", Table: "T0", UUID: kit.MkUUID(1), Row: kit.Row{"name": kit.Scalar(kit.Str("seed")), "a": kit.Scalar(kit.Int(0)), "b": kit.Scalar(kit.Int(0))}}}); err != nil {
 		tb.Fatalf("seed: %v", err)
 	}
-	e := &c18Env{w: w, srv: srv, c: c}
+	e := &c18Env{w: w, srv: srv, px: px, c: c}
 	return e
 }
 
@@ -379,6 +431,7 @@ func TestC18Enumerated(t *testing.T) {
 					kit.Fail(t, "C18", "liveness.unusable-afterwards", kase, "after %s then %s (monitor %v): %v", f.name, fu.name, withMonitor, eperr)
 				}
 				e.c.Close()
+				e.px.Close()
 				e.srv.Close()
 				combos++
 				kit.Record("C18", fmt.Sprintf("enum|%s|%s|%v", f.name, fu.name, withMonitor), true, func() interface{} { return kase }, "enumerated")
